@@ -21,7 +21,7 @@ import (
 func TestMain(m *testing.M) { ev.Main(m, "C03") }
 
 type Step struct {
-	Op   string `json:"op"`   // send | ack | early | near | late | end | pub2
+	Op   string `json:"op"`   // send | ack | early | near | late | end | pub2 | hold2 | rel2
 	S    int    `json:"s"`    // subscriber index (ack, end)
 	K    int    `json:"k"`    // ack, pub2: index into that subscriber's in-flight list (mod len); -1 = an identifier that is not in flight
 	Type string `json:"type"` // ack: puback pubrec pubrel pubcomp
@@ -81,6 +81,7 @@ func run(c Case) (f *failure, nontrivial bool) {
 		return f, false
 	}
 	inflight := make([][]*flight, len(subs))
+	heldIn := make([]map[uint16]bool, len(subs)) // the subscribers' own QoS 2 publishes awaiting their PUBREL
 	ended := make([]bool, len(subs))
 	seenRx := make([]int, len(subs))
 	for i, k := range subs {
@@ -200,6 +201,11 @@ func run(c Case) (f *failure, nontrivial bool) {
 			n.Acks.Sweep(now)
 			if f := settle(); f != nil {
 				return f, nontrivial
+			}
+			if st.Op == "late" {
+				for i := range heldIn {
+					heldIn[i] = nil // the broker gives up on exchanges whose PUBREL is overdue
+				}
 			}
 			if st.Op == "early" {
 				if f := expectNothing(si, "sweep before the deadlines"); f != nil {
@@ -337,6 +343,54 @@ func run(c Case) (f *failure, nontrivial bool) {
 			if collides {
 				sawWrong = true
 			}
+		case "hold2":
+			// the subscriber starts a QoS 2 publish of its own with a small packet identifier
+			// (K+1) that no delivery to it is using, and keeps the PUBREL back: identifiers chosen
+			// by the client and by the broker are independent, so the broker's next deliveries to
+			// this session may well carry the same number and must go through all the same
+			if st.S >= len(subs) || ended[st.S] || invalid(st.S) {
+				continue
+			}
+			id := uint16(st.K%4 + 1)
+			busy := heldIn[st.S][id]
+			for _, fl := range inflight[st.S] {
+				if fl.id == id {
+					busy = true
+				}
+			}
+			if busy {
+				continue
+			}
+			subs[st.S].Send(sim.EncPublish("other/y", []byte("held"), 2, false, false, id))
+			if f := settle(); f != nil {
+				return f, nontrivial
+			}
+			got := fresh(st.S)
+			if len(got) != 1 || got[0].Type != sim.PUBREC || got[0].ID != id {
+				return &failure{fmt.Sprintf("step %d: sub%d published at QoS 2 with the unused identifier %d: received %v, want one PUBREC %d", si, st.S, id, got, id), false}, nontrivial
+			}
+			if heldIn[st.S] == nil {
+				heldIn[st.S] = map[uint16]bool{}
+			}
+			heldIn[st.S][id] = true
+			sawWrong = true
+		case "rel2":
+			if st.S >= len(subs) || ended[st.S] || invalid(st.S) {
+				continue
+			}
+			id := uint16(st.K%4 + 1)
+			if !heldIn[st.S][id] {
+				continue
+			}
+			delete(heldIn[st.S], id)
+			subs[st.S].Send(sim.EncAck(sim.PUBREL, id))
+			if f := settle(); f != nil {
+				return f, nontrivial
+			}
+			got := fresh(st.S)
+			if len(got) != 1 || got[0].Type != sim.PUBCOMP || got[0].ID != id {
+				return &failure{fmt.Sprintf("step %d: sub%d released its own QoS 2 publish %d: received %v, want one PUBCOMP %d", si, st.S, id, got, id), false}, nontrivial
+			}
 		case "end":
 			if st.S >= len(subs) || ended[st.S] {
 				continue
@@ -446,16 +500,20 @@ func TestRandom(t *testing.T) {
 					Type: rapid.SampledFrom([]string{"puback", "puback", "pubrec", "pubrec", "pubcomp", "pubcomp", "pubrel"}).Draw(t, "type")})
 			case x < 15:
 				c.Steps = append(c.Steps, Step{Op: "late"})
-			case x < 17:
+			case x < 16:
 				c.Steps = append(c.Steps, Step{Op: "near"})
-			case x < 18:
+			case x < 17:
 				c.Steps = append(c.Steps, Step{Op: "early"})
 			case x < 19:
 				k := rapid.IntRange(0, 5).Draw(t, "k")
 				if rapid.IntRange(0, 3).Draw(t, "unusedId") == 0 {
 					k = -1
 				}
-				c.Steps = append(c.Steps, Step{Op: "pub2", S: rapid.IntRange(0, ns-1).Draw(t, "s"), K: k})
+				op := rapid.SampledFrom([]string{"pub2", "hold2", "hold2", "rel2"}).Draw(t, "inbound")
+				if op != "pub2" && k < 0 {
+					k = 0
+				}
+				c.Steps = append(c.Steps, Step{Op: op, S: rapid.IntRange(0, ns-1).Draw(t, "s"), K: k})
 			default:
 				c.Steps = append(c.Steps, Step{Op: "end", S: rapid.IntRange(0, ns-1).Draw(t, "s")})
 			}
